@@ -182,6 +182,9 @@ export const PROBES = [
   { id: "cyclic-alias-unions", files: { "entry.ts": 'type A = B | "x"; type B = A | "y";\nparse.buildParsers<{ X: A }>();\n' } },
   { id: "two-default-exports", files: { "entry.ts": 'import D from "./o";\nparse.buildParsers<{ X: D }>();\n', "o.ts": "export default 1;\nexport default 2;\n" } },
   { id: "recursive-tuple-conditional", files: { "entry.ts": "type T = [string, ...T[]];\nparse.buildParsers<{ X: T extends string ? 1 : 2 }>();\n" } },
+  { id: "namespace-exports-itself", files: { "entry.ts": 'import * as ns from "./a";\nparse.buildParsers<{ X: typeof ns }>();\n', "a.ts": 'export * as self from "./a";\nexport const x = 1;\n' } },
+  { id: "namespaces-export-each-other", files: { "entry.ts": 'import * as ns from "./a";\nparse.buildParsers<{ X: typeof ns; Y: typeof ns.other.back.x }>();\n', "a.ts": 'export * as other from "./b";\nexport const x = 1;\n', "b.ts": 'export * as back from "./a";\nexport const y = "s";\n' } },
+  { id: "namespace-re-export-through-star", files: { "entry.ts": 'import * as ns from "./a";\nparse.buildParsers<{ X: typeof ns }>();\n', "a.ts": 'export * from "./b";\nexport * as inner from "./b";\n', "b.ts": 'export * from "./a";\nexport const y = "s";\n' } },
   { id: "entry-missing", files: { "other.ts": "export type A = 1;" } },
   { id: "entry-unparsable", files: { "entry.ts": "type A = {{{" } },
   { id: "crlf-bom", files: { "entry.ts": "﻿type A = {\r\n  a: symbol\r\n};\r\nparse.buildParsers<{ X: A }>();\r\n" } },
